@@ -78,6 +78,9 @@ type step struct {
 	// dispatcher unit, with Early: the gateway's answer is that of a strategy-based throttling remedy whose share is
 	// used up (the "too many requests" answer built by the remedies' common code), with this status
 	Throttled bool `json:"by_a_throttling_remedy,omitempty"`
+	// flows: the attempt's request message goes through the engine before its response, as the proxy sends them
+	// (false: only the response message is handled)
+	ReqLeg bool `json:"request_message_first,omitempty"`
 }
 
 type tcase struct {
@@ -217,6 +220,9 @@ func genFlowsCase() *rapid.Generator[tcase] {
 		}
 		c := tcase{Flows: f, Seqs: genSeqs(t)}
 		c.Steps = genSteps(t, len(c.Seqs), f.Attempts, statuses, f.inCond, true, nil)
+		for i := range c.Steps {
+			c.Steps[i].ReqLeg = rapid.IntRange(0, 3).Draw(t, "request-leg") != 0
+		}
 		return c
 	})
 }
@@ -606,6 +612,12 @@ func runFlows(r *ev.Recorder, rec *engine.Recorder, c tcase) (bool, string, erro
 			r.Class("in-condition")
 		} else {
 			r.Class("out-of-condition")
+		}
+		if st.ReqLeg {
+			r.Class("request message handled before the response")
+			if res := engine.RunRequest(s, engine.Txn{ID: id, Seq: seq, Method: "GET", URL: "h.com/r", Path: "/r", Headers: map[string]string{"host": "h.com"}}); res.Err != nil {
+				return j.nontriv, fmt.Sprintf("step %d: the request message of the attempt was not handled: %v", i, res.Err), nil
+			}
 		}
 		rec.Take()
 		before := retryTimers()
